@@ -452,4 +452,16 @@ theorem needM_le (ops : NumOps N) : (kvs : List (List Char × JsonValue N)) → 
     omega
 end
 
+/-- `parse_json_str(stringify(v)) = Ok(v)` (top level, depth ≤ 1024) -/
+theorem parse_stringify_aux {N : Type} (ops : NumOps N) (laws : NumLaws ops) (v : JsonValue N) (hv : WF v)
+    (hd : depth v ≤ maxNesting) : parseBytes ops (stringify ops v) = .ok v := by
+  unfold parseBytes Iter.start
+  have hf : need v ≤ fuelFor (stringify ops v) := by
+    have := need_le ops v
+    unfold fuelFor; omega
+  have := parseValue_stringify ops laws v (fuelFor (stringify ops v)) 0 [] [] true
+    (by intro b r e; cases e) hf hv (by omega)
+  simp only [List.append_nil] at this
+  rw [this]; rfl
+
 end VtProofs.Json
